@@ -294,6 +294,18 @@ module Pos =
 
 module N =
  struct
+  (** val succ_double : n -> n **)
+
+  let succ_double = function
+  | N0 -> Npos XH
+  | Npos p -> Npos (XI p)
+
+  (** val double : n -> n **)
+
+  let double = function
+  | N0 -> N0
+  | Npos p -> Npos (XO p)
+
   (** val eqb : n -> n -> bool **)
 
   let eqb n0 m =
@@ -1705,19 +1717,97 @@ let dec_binary = function
    | _ -> None)
 | _ -> None
 
+(** val bits_of_pos : positive -> bool list **)
+
+let rec bits_of_pos = function
+| XI q -> true :: (bits_of_pos q)
+| XO q -> false :: (bits_of_pos q)
+| XH -> true :: []
+
+(** val bits_of_N : n -> bool list **)
+
+let bits_of_N = function
+| N0 -> []
+| Npos p -> bits_of_pos p
+
+(** val binary_N : n -> term **)
+
+let binary_N n0 =
+  Abs (Abs (Abs (bits_term (bits_of_N n0))))
+
+(** val dec_bits_N : term -> n option **)
+
+let rec dec_bits_N = function
+| Var n0 ->
+  (match n0 with
+   | O -> None
+   | S n1 ->
+     (match n1 with
+      | O -> None
+      | S n2 ->
+        (match n2 with
+         | O -> None
+         | S n3 -> (match n3 with
+                    | O -> Some N0
+                    | S _ -> None))))
+| Abs _ -> None
+| App (l, r0) ->
+  (match l with
+   | Var n0 ->
+     (match n0 with
+      | O -> None
+      | S n1 ->
+        (match n1 with
+         | O -> option_map N.succ_double (dec_bits_N r0)
+         | S n2 ->
+           (match n2 with
+            | O -> option_map N.double (dec_bits_N r0)
+            | S _ -> None)))
+   | _ -> None)
+
+(** val dec_binary_N : term -> n option **)
+
+let dec_binary_N = function
+| Abs t0 ->
+  (match t0 with
+   | Abs t1 -> (match t1 with
+                | Abs b -> dec_bits_N b
+                | _ -> None)
+   | _ -> None)
+| _ -> None
+
+(** val n_of_bits_msb : bool list -> n **)
+
+let n_of_bits_msb bs =
+  fold_left (fun acc b -> if b then N.succ_double acc else N.double acc) bs N0
+
 type term_error =
 | NotVar
 | NotAbs
 | NotApp
 
+type r = (term * nat) option
+
+(** val bind : r -> (term -> nat -> r) -> r **)
+
+let bind x k =
+  match x with
+  | Some p -> let (t, c) = p in k t c
+  | None -> None
+
+(** val ret : term -> nat -> r **)
+
+let ret t c =
+  Some (t, c)
+
 (** val update_free_variables : nat -> nat -> term -> term **)
 
-let rec update_free_variables added own = function
-| Var i -> if Nat.ltb own i then Var (add i added) else Var i
-| Abs b -> Abs (update_free_variables added (S own) b)
+let rec update_free_variables added_depth own_depth = function
+| Var i -> if Nat.ltb own_depth i then Var (add i added_depth) else Var i
+| Abs b -> Abs (update_free_variables added_depth (S own_depth) b)
 | App (l, r0) ->
-  App ((update_free_variables added own l),
-    (update_free_variables added own r0))
+  App ((update_free_variables added_depth own_depth l),
+    (update_free_variables added_depth own_depth r0))
 
 (** val apply_rec : term -> nat -> term -> term **)
 
@@ -1763,76 +1853,6 @@ let is_reducible t limit count =
      | _ -> false)
   | _ -> false
 
-type r = (term * nat) option
-
-(** val bind : r -> (term -> nat -> r) -> r **)
-
-let bind x k =
-  match x with
-  | Some p -> let (t, c) = p in k t c
-  | None -> None
-
-(** val ret : term -> nat -> r **)
-
-let ret t c =
-  Some (t, c)
-
-(** val beta_cbn : nat -> nat -> nat -> term -> r **)
-
-let rec beta_cbn fuel limit count t =
-  match fuel with
-  | O -> None
-  | S f ->
-    if limit_hit limit count
-    then ret t count
-    else (match t with
-          | App (l, r0) ->
-            bind (beta_cbn f limit count l) (fun l1 c1 ->
-              let t1 = App (l1, r0) in
-              if is_reducible t1 limit c1
-              then beta_cbn f limit (S c1) (eval_m t1)
-              else ret t1 c1)
-          | _ -> ret t count)
-
-(** val beta_nor : nat -> nat -> nat -> term -> r **)
-
-let rec beta_nor fuel limit count t =
-  match fuel with
-  | O -> None
-  | S f ->
-    if limit_hit limit count
-    then ret t count
-    else (match t with
-          | Var _ -> ret t count
-          | Abs b ->
-            bind (beta_nor f limit count b) (fun b1 c1 -> ret (Abs b1) c1)
-          | App (l, r0) ->
-            bind (beta_cbn f limit count l) (fun l1 c1 ->
-              let t1 = App (l1, r0) in
-              if is_reducible t1 limit c1
-              then beta_nor f limit (S c1) (eval_m t1)
-              else bind (beta_nor f limit c1 l1) (fun l2 c2 ->
-                     bind (beta_nor f limit c2 r0) (fun r2 c3 ->
-                       ret (App (l2, r2)) c3))))
-
-(** val beta_cbv : nat -> nat -> nat -> term -> r **)
-
-let rec beta_cbv fuel limit count t =
-  match fuel with
-  | O -> None
-  | S f ->
-    if limit_hit limit count
-    then ret t count
-    else (match t with
-          | App (l, r0) ->
-            bind (beta_cbv f limit count l) (fun l1 c1 ->
-              bind (beta_cbv f limit c1 r0) (fun r1 c2 ->
-                let t1 = App (l1, r1) in
-                if is_reducible t1 limit c2
-                then beta_cbv f limit (S c2) (eval_m t1)
-                else ret t1 c2))
-          | _ -> ret t count)
-
 (** val beta_app : nat -> nat -> nat -> term -> r **)
 
 let rec beta_app fuel limit count t =
@@ -1852,6 +1872,41 @@ let rec beta_app fuel limit count t =
                 if is_reducible t1 limit c2
                 then beta_app f limit (S c2) (eval_m t1)
                 else ret t1 c2)))
+
+(** val beta_cbn : nat -> nat -> nat -> term -> r **)
+
+let rec beta_cbn fuel limit count t =
+  match fuel with
+  | O -> None
+  | S f ->
+    if limit_hit limit count
+    then ret t count
+    else (match t with
+          | App (l, r0) ->
+            bind (beta_cbn f limit count l) (fun l1 c1 ->
+              let t1 = App (l1, r0) in
+              if is_reducible t1 limit c1
+              then beta_cbn f limit (S c1) (eval_m t1)
+              else ret t1 c1)
+          | _ -> ret t count)
+
+(** val beta_cbv : nat -> nat -> nat -> term -> r **)
+
+let rec beta_cbv fuel limit count t =
+  match fuel with
+  | O -> None
+  | S f ->
+    if limit_hit limit count
+    then ret t count
+    else (match t with
+          | App (l, r0) ->
+            bind (beta_cbv f limit count l) (fun l1 c1 ->
+              bind (beta_cbv f limit c1 r0) (fun r1 c2 ->
+                let t1 = App (l1, r1) in
+                if is_reducible t1 limit c2
+                then beta_cbv f limit (S c2) (eval_m t1)
+                else ret t1 c2))
+          | _ -> ret t count)
 
 (** val beta_hap : nat -> nat -> nat -> term -> r **)
 
@@ -1912,6 +1967,27 @@ let rec beta_hno fuel limit count t =
               then beta_hno f limit (S c1) (eval_m t1)
               else bind (beta_hno f limit c1 l1) (fun l2 c2 ->
                      bind (beta_hno f limit c2 r0) (fun r2 c3 ->
+                       ret (App (l2, r2)) c3))))
+
+(** val beta_nor : nat -> nat -> nat -> term -> r **)
+
+let rec beta_nor fuel limit count t =
+  match fuel with
+  | O -> None
+  | S f ->
+    if limit_hit limit count
+    then ret t count
+    else (match t with
+          | Var _ -> ret t count
+          | Abs b ->
+            bind (beta_nor f limit count b) (fun b1 c1 -> ret (Abs b1) c1)
+          | App (l, r0) ->
+            bind (beta_cbn f limit count l) (fun l1 c1 ->
+              let t1 = App (l1, r0) in
+              if is_reducible t1 limit c1
+              then beta_nor f limit (S c1) (eval_m t1)
+              else bind (beta_nor f limit c1 l1) (fun l2 c2 ->
+                     bind (beta_nor f limit c2 r0) (fun r2 c3 ->
                        ret (App (l2, r2)) c3))))
 
 (** val reduce_m : nat -> order -> nat -> term -> r **)
